@@ -5,6 +5,7 @@ go 1.21
 replace github.com/herohde/morlock => /repo
 
 require (
+	github.com/anishathalye/porcupine v1.3.0
 	github.com/herohde/morlock v0.0.0-00010101000000-000000000000
 	github.com/seekerror/stdlib v0.0.0-20231216224128-fab4c1e73ebe
 )
